@@ -552,7 +552,6 @@ Theorem parse_format_never_out_of_fuel :
   forall fc cli_font cli_maxlen ee (ts : toks),
     eof_ended ts -> parse_format fc cli_font cli_maxlen ee ts <> Fuel.
 Proof. intros fc cli_font cli_maxlen ee ts Hts E. exact (parse_format_nf fc cli_font cli_maxlen ee ts E Hts). Qed.
-Print Assumptions parse_format_never_out_of_fuel.
 
 (* fuel linear in the number of tokens is enough: for every token list that ends with its EOF token, every parser state and
    every fuel >= 5 * length ts + 4, the top-level loop of the parser does not answer Fuel *)
@@ -565,7 +564,6 @@ Proof.
   exact (parse_tops_nf autovars switches ee _ (ProgSrc.parse_format_advs fc cli_font cli_maxlen ee)
            (parse_format_lt fc cli_font cli_maxlen ee) (parse_format_nf fc cli_font cli_maxlen ee) fuel st ts E Hts Hb).
 Qed.
-Print Assumptions parse_tops_enough_fuel.
 
 (* on source texts, for parse_tops with any fuel above the bound *)
 Theorem parser_never_out_of_fuel_partial :
@@ -576,7 +574,6 @@ Proof.
   intros hl hd hs autovars switches ee fc cli_font cli_maxlen src fuel st Hb.
   apply parse_tops_enough_fuel; [apply ProgSrc.lex_eof|exact Hb].
 Qed.
-Print Assumptions parser_never_out_of_fuel_partial.
 
 (* THE THEOREM (C18, termination of the parser model): for every source text and configuration the parser answers with a
    program or a located error - never with Fuel *)
@@ -591,7 +588,6 @@ Proof.
   - discriminate.
   - exact (parser_never_out_of_fuel_partial hl hd hs autovars switches ee fc cli_font cli_maxlen src _ _ (le_n _) E).
 Qed.
-Print Assumptions parser_never_out_of_fuel.
 
 (* ---------- the earlier fuel of the model, S (length ts), was not enough ---------- *)
 Definition no_hi (_ : N) : bool := false.
@@ -951,7 +947,6 @@ Proof.
     apply parse_tops_more_fuel; [exact Hts|lia]. }
   rewrite (E fuel1 H1), (E fuel2 H2). reflexivity.
 Qed.
-Print Assumptions parse_tops_fuel_independent.
 
 Theorem parser_answer_fuel_independent :
   forall hl hd hs autovars switches ee fc cli_font cli_maxlen (src : text) (fuel1 fuel2 : nat) (st : pstate),
@@ -959,7 +954,6 @@ Theorem parser_answer_fuel_independent :
     parse_tops autovars switches ee (parse_format fc cli_font cli_maxlen ee) fuel1 st (lex hl hd hs src) =
     parse_tops autovars switches ee (parse_format fc cli_font cli_maxlen ee) fuel2 st (lex hl hd hs src).
 Proof. intros. apply parse_tops_fuel_independent; [apply ProgSrc.lex_eof|assumption|assumption]. Qed.
-Print Assumptions parser_answer_fuel_independent.
 
 (* Below the bound the fuel does change the answer, and not only into Fuel: collect_until (and ms_collect,
    const_value) answer "end of input" when they run out of fuel.  With the earlier fuel of the model, S (length ts), the input
